@@ -59,6 +59,18 @@ def cases(draw):
             u = draw(st.sampled_from([0.999, 0.999, 0.5, 0.1]))
             recipe = dict(recipe, obj=ob.scaled(recipe["obj"], u * r / (K(n) * L)))
     case = {"recipe": recipe, "params": {"r": r, "eps": eps, "itersLimit": 5000}, "class": cls}
+    if draw(st.integers(0, 119)) == 0:
+        # a very long run: a flat 1-D objective with one narrow well (half-width w, depth h = 2w, so K_1*L = 4 <= r),
+        # eps = w/10: the search refines [0,1] uniformly for tens of thousands of trials before the well decides
+        w = float(2.0 ** -draw(st.integers(11, 13))) * draw(st.floats(0.6, 1.0))
+        c = draw(st.floats(0.05, 0.95))
+        case = {"recipe": {"n": 1, "lower": [0.0], "upper": [1.0], "density": 10,
+                           "obj": {"family": "needle", "c": [c], "w": w, "h": 2.0 * w}},
+                "params": {"r": draw(st.sampled_from([4.0, 4.5, 6.0])), "eps": w / 10.0, "itersLimit": 200000},
+                "class": "unconditional", "very_long": True}
+        return case
+    # refineSolution=True: the value Solve returns is the refined one; it may only be lower (C05), the bound stays
+    case["refine"] = draw(st.integers(0, 3)) == 0
     if draw(st.integers(0, 4)) == 0:
         # the search is first run with a small budget, then the budget is raised and Solve is called again: the
         # statement is about the Solve that ends with the accuracy stop, however the trials before it were spent
@@ -69,12 +81,13 @@ def cases(draw):
 def body(case):
     recipe, p = case["recipe"], case["params"]
     n, r, eps = recipe["n"], p["r"], p["eps"]
+    refine = bool(case.get("refine"))
     if case.get("first_limit"):
-        run = Run(recipe, dict(p, itersLimit=case["first_limit"]))
+        run = Run(recipe, dict(p, itersLimit=case["first_limit"]), refine=refine)
         run.solve()
         run.sp.itersLimit = p["itersLimit"]
     else:
-        run = Run(recipe, p)
+        run = Run(recipe, p, refine=refine)
     sol = run.solve()
     hist = run.history()
     classes = ["N=%d" % n, "class=" + case["class"], "family=" + recipe["obj"]["family"],
@@ -85,6 +98,10 @@ def body(case):
             fail("Solve swallowed an internal exception after %d trials" % len(hist))
         classes.append("inconclusive:float-resolution")
         return False, classes
+    if refine:
+        classes.append("refineSolution")
+    if case.get("very_long"):
+        classes.append("very-long-run")
     if len(hist) >= p["itersLimit"]:
         classes.append("inconclusive:budget")
         return False, classes
